@@ -306,6 +306,8 @@ class ComposedNode(ConfigNode):
 
             for key, value in other._children.items():
                 child = self.ayns.get_child(key, None)
+                if child is value: # e.g., a node emptied in place by !clear, there is nothing to merge
+                    continue
                 if child is None:
                     value.ayns._require_all_new(path + [key], f'last parent: {_this_path!r}, from file: {self.ayns.source_file!r}')
                     self.ayns.set_child(key, value)
